@@ -60,6 +60,50 @@ theorem map_mono {o1 o2 : Option E} {f : E → E} {t : E} (h : o1.map f = some t
   | none => simp at h
   | some x => rw [hle x rfl]; exact h
 
+/-- the member / index / call cases are monotone in the recursive call -/
+theorem descLink_mono {r1 r2 : E → Prec → Option E} (hr : Le r1 r2) (e : E) (p : Prec) (t : E)
+    (h : descLink r1 e p = some t) : descLink r2 e p = some t := by
+  have hmap : ∀ l l', mapO (fun a => r1 a opAssign) l = some l' → mapO (fun a => r2 a opAssign) l = some l' :=
+    fun l l' hl => mapO_mono (fun a t ha => hr _ _ _ ha) l l' hl
+  cases e with
+  | dot x name =>
+    simp only [descLink] at h ⊢
+    cases hd : dotNumObj x with
+    | some n => simpa [hd] using h
+    | none =>
+      simp only [hd] at h ⊢
+      exact map_mono h (fun x' hx' => hr _ _ _ hx')
+  | index x y =>
+    simp only [descLink] at h ⊢
+    cases hx : r1 x (if p < opMember then opCall else opMember) with
+    | none => simp [hx] at h
+    | some x' =>
+      simp only [hx] at h
+      rw [hr _ _ _ hx]
+      simp only
+      cases hs : strLit? y with
+      | some s0 =>
+        simp only [hs] at h ⊢
+        split
+        · rename_i hc; rw [if_pos hc] at h; exact h
+        · rename_i hc
+          rw [if_neg hc] at h
+          exact map_mono h (fun y' hy' => hr _ _ _ hy')
+      | none =>
+        simp only [hs] at h ⊢
+        exact map_mono h (fun y' hy' => hr _ _ _ hy')
+  | call f args =>
+    simp only [descLink] at h ⊢
+    cases hf : r1 f opCall with
+    | none => simp [hf] at h
+    | some f' =>
+      cases ha : mapO (fun a => r1 a opAssign) args with
+      | none => simp [hf, ha] at h
+      | some args' =>
+        simp [hf, ha] at h
+        simp [hr _ _ _ hf, hmap _ _ ha, h]
+  | _ => simp [descLink] at h
+
 /-- `descend` is monotone in the rewriter and in the recursive call -/
 theorem descend_mono {w1 w2 r1 r2 : E → Prec → Option E} (hw : Le w1 w2) (hr : Le r1 r2) (e : E) (p : Prec) (t : E)
     (h : descend w1 r1 e p = some t) : descend w2 r2 e p = some t := by
@@ -115,32 +159,8 @@ theorem descend_mono {w1 w2 r1 r2 : E → Prec → Option E} (hw : Le w1 w2) (hr
           cases q with
           | some r => exact h
           | none => exact map_mono h (fun x' hx' => hr _ _ _ hx')
-  | dot x name =>
-    simp only [descend] at h ⊢
-    cases hd : dotNumObj x with
-    | some n => simpa [hd] using h
-    | none =>
-      simp only [hd] at h ⊢
-      exact map_mono h (fun x' hx' => hr _ _ _ hx')
-  | index x y =>
-    simp only [descend] at h ⊢
-    cases hx : r1 x (if p < opMember then opCall else opMember) with
-    | none => simp [hx] at h
-    | some x' =>
-      simp only [hx] at h
-      rw [hr _ _ _ hx]
-      simp only
-      cases hs : strLit? y with
-      | some s0 =>
-        simp only [hs] at h ⊢
-        split
-        · rename_i hc; rw [if_pos hc] at h; exact h
-        · rename_i hc
-          rw [if_neg hc] at h
-          exact map_mono h (fun y' hy' => hr _ _ _ hy')
-      | none =>
-        simp only [hs] at h ⊢
-        exact map_mono h (fun y' hy' => hr _ _ _ hy')
+  | dot x name => simp only [descend] at h ⊢; exact descLink_mono hr _ p t h
+  | index x y => simp only [descend] at h ⊢; exact descLink_mono hr _ p t h
   | group x =>
     simp only [descend] at h ⊢
     have hgi : ∀ x1, groupInner w1 x = some x1 → groupInner w2 x = some x1 := by
@@ -156,20 +176,30 @@ theorem descend_mono {w1 w2 r1 r2 : E → Prec → Option E} (hw : Le w1 w2) (hr
       rw [hgi x1 hx]
       simp only
       split
-      · rename_i hp; rw [if_pos hp] at h; exact hr _ _ _ h
-      · rename_i hp
-        rw [if_neg hp] at h
-        exact map_mono h (fun t' ht' => hr _ _ _ ht')
-  | call f args =>
+      · rename_i hq; rw [if_pos hq] at h; cases h
+      · rename_i hq
+        rw [if_neg hq] at h
+        split
+        · rename_i hp; rw [if_pos hp] at h; exact hr _ _ _ h
+        · rename_i hp
+          rw [if_neg hp] at h
+          exact map_mono h (fun t' ht' => hr _ _ _ ht')
+  | call f args => simp only [descend] at h ⊢; exact descLink_mono hr _ p t h
+  | opt a e =>
     simp only [descend] at h ⊢
-    cases hf : r1 f opCall with
-    | none => simp [hf] at h
-    | some f' =>
-      cases ha : mapO (fun a => r1 a opAssign) args with
-      | none => simp [hf, ha] at h
-      | some args' =>
-        simp [hf, ha] at h
-        simp [hr _ _ _ hf, hmap _ _ ha, h]
+    split
+    · rename_i hc; rw [if_pos hc] at h; cases h
+    · rename_i hc
+      rw [if_neg hc] at h
+      split
+      · rename_i hc2; rw [if_pos hc2] at h; cases h
+      · rename_i hc2
+        rw [if_neg hc2] at h
+        split
+        · rename_i hc3
+          rw [if_pos hc3] at h
+          exact map_mono h (fun t' ht' => descLink_mono hr _ p t' ht')
+        · rename_i hc3; rw [if_neg hc3] at h; cases h
   | cond c x y =>
     simp only [descend] at h ⊢
     cases hc : r1 c opCoalesce with
